@@ -21,6 +21,7 @@ def run(ctx, rep):
         rt.rule_writers(rep, crate, cfg, ['source', 'is_prefix', 'token_start', 'token_end'], 'M-C14w')
     rt.rule_witnesses(rep, ctx)
     rep.analysed['configs'] = [c for c, _ in cfgs]
+    rt.rt_controls(rep, ctx, ['M-C14c'])
     rep.trusted += ['rustc nightly MIR construction', 'engines/mirfacts']
     rep.assumptions += ['Into::into / Clone::clone of Extras are the user-provided conversions the property names',
                         'generated Logos::lex only uses the LexerInternal interface (decided under C05/C20 on generated code)']
